@@ -1748,7 +1748,12 @@ func (m *repoManager) hideBranch(uuid dvid.UUID, branch string) error {
 	m.resetBranchHeads(r)
 	r.Unlock()
 	m.repoMutex.Unlock()
-	return r.save()
+	if err := r.save(); err != nil {
+		return err
+	}
+	// Persist the version <-> UUID maps without the hidden versions, or their UUIDs
+	// would be known again after a restart.
+	return m.putCaches()
 }
 
 func (m *repoManager) makeMaster(newMasterUUID dvid.UUID, oldMasterBranchName string) error {
